@@ -563,6 +563,7 @@ type CaseStatement struct {
 	Test       Expression
 	Consequent []Statement
 	Case       file.Idx
+	Colon      file.Idx
 }
 
 // Idx0 implements Node.
@@ -572,6 +573,10 @@ func (cs *CaseStatement) Idx0() file.Idx {
 
 // Idx1 implements Node.
 func (cs *CaseStatement) Idx1() file.Idx {
+	if len(cs.Consequent) == 0 {
+		// "case x:" / "default:" without statements ends behind its colon.
+		return cs.Colon + 1
+	}
 	return cs.Consequent[len(cs.Consequent)-1].Idx1()
 }
 
